@@ -194,7 +194,16 @@ class C10Stream(Stream):
                 if ctor['context'][0] != 'ctx' and ctor['context'] != ['v', None]:
                     ctor['context'] = ['ctx', gen_ctx(rng)]
             ops = [gen_op(rng) for _ in range(rng.choice([0, 1, 2, 3, 4, 6, 8]))]
-            yield {'ctor': ctor, 'ops': ops}
+            case = {'ctor': ctor, 'ops': ops}
+            if rng.random() < 0.25:
+                # the convenience subclasses: the same constructor with the effect fixed and no `rules` argument
+                case['cls'] = rng.choice(['PolicyAllow', 'PolicyDeny'])
+                ctor['effect'] = ['v', 'allow' if case['cls'] == 'PolicyAllow' else 'deny']
+                ctor['rules'] = ['v', None]
+                if rng.random() < 0.5:
+                    ctor['context'] = rng.choice([['v', None], ['seq', False, []], ['seq', True, []], ['v', ''],
+                                                  ['v', 0], ['v', False], ['ctx', []], ['v', 5]])
+            yield case
         if tier == 'thorough':
             # exhaustive: all assignment sequences of length <= 3 over a 10-assignment alphabet
             alpha = [['subjects', ['seq', False, [['s', 'a']]]], ['subjects', ['seq', True, [['r', ['Any']]]]],
@@ -219,15 +228,21 @@ class C10Stream(Stream):
 
     def impl(self, c):
         import warnings
-        from vakt.policy import Policy
+        from vakt.policy import Policy, PolicyAllow, PolicyDeny
         a = c['ctor']
         try:
             with warnings.catch_warnings():
                 warnings.simplefilter('ignore')
-                p = Policy(mk_aval(a['uid']), subjects=mk_aval(a['subjects']), effect=mk_aval(a['effect']),
-                           resources=mk_aval(a['resources']), actions=mk_aval(a['actions']),
-                           context=mk_aval(a['context']), rules=mk_aval(a['rules']),
-                           description=mk_aval(a['description']))
+                if c.get('cls') in ('PolicyAllow', 'PolicyDeny'):
+                    klass = PolicyAllow if c['cls'] == 'PolicyAllow' else PolicyDeny
+                    p = klass(mk_aval(a['uid']), subjects=mk_aval(a['subjects']), resources=mk_aval(a['resources']),
+                              actions=mk_aval(a['actions']), context=mk_aval(a['context']),
+                              description=mk_aval(a['description']))
+                else:
+                        p = Policy(mk_aval(a['uid']), subjects=mk_aval(a['subjects']), effect=mk_aval(a['effect']),
+                               resources=mk_aval(a['resources']), actions=mk_aval(a['actions']),
+                               context=mk_aval(a['context']), rules=mk_aval(a['rules']),
+                               description=mk_aval(a['description']))
         except Exception as e:  # noqa
             return s_exc(e)
         out = ['ok ' + s_state(p)]
@@ -328,7 +343,7 @@ ASSUME = ['in-place mutation of a field list bypasses __setattr__ and is outside
 
 def main(argv):
     return run_check('C10', [C10Stream()], argv, trusted_base=TRUSTED, assumptions=ASSUME,
-                     translated=('policy', 'on_generated'))
+                     translated=('policy', 'on_generated', 'pin_util'))
 
 
 if __name__ == '__main__':
